@@ -762,10 +762,10 @@ def tag(case, f):
 
 
 SUBS = [
-    Sub('bijection', cases(), check, quick=2000, thorough=64000, tag=tag,
+    Sub('bijection', cases(), check, quick=8000, thorough=64000, tag=tag,
         rule='construct + derive; invariants vs list model after every step'),
-    Sub('go_history', go_cases(), check_go, quick=1500, thorough=48000, tag=tag,
+    Sub('go_history', go_cases(), check_go, quick=6000, thorough=48000, tag=tag,
         rule='grow-only index histories: cache-materialising reads, append/extend, 13 derivation routes taken from the grown index before it is observed'),
-    Sub('negative', neg_cases(), check_neg, quick=800, thorough=16000,
+    Sub('negative', neg_cases(), check_neg, quick=3200, thorough=16000,
         rule='duplicate / non-tree label sets must raise ErrorInitIndex'),
 ]
